@@ -61,6 +61,10 @@ CLAIMED["C20"] = dict(
    text="(partial) swap_distance: the real source on two symbolic permutations (length <= 6, thorough 7) returns n minus the number of cycles of p2 o p1^-1, cycles counted declaratively by iterated selects; that this number is the minimum number of transpositions is Cayley's theorem, re-confirmed by exhaustive BFS for n <= 6 together with the compiled kernel (enumeration, labelled). from_sequence_and_distance: the real source on <= 6 abstract objects with a symbolic pseudo-metric distance table (Instance constructor replaced by a recorder): recorded matrix = distances among the kept representatives, every original object mapped to a kept object at distance 0, kept objects pairwise at positive distance.",
    note="Outside: the flow construction in Instance.__init__ (scipy rankdata, float powers/rounding) - only exercised when a from_sequence counterexample is replayed; |i-j| distances. Trusted: z3, argsort-of-permutation = inverse.",
    design="4/C20")
+CLAIMED["C17"] = dict(
+   text="(partial) The real InstanceDecoder.decode runs on concrete small templates with every x entry abstracted to its sign plus an arbitrary integer truncation of each product int(k*x_i) (an over-approximation of all floats in [-1,1], including -1, 0, 1 and their neighbours): on every path the recorded instance keeps the suffixed name, the bin, the item count, item sizes within the bin, equal items merged, and (min_bins-1)*A < total area <= min_bins*A; an IndexError/ZeroDivisionError is a violation. Models are turned into float vectors that reproduce every recorded truncation and replayed through InstanceSpace + InstanceDecoder (lower_bound_bins == min_bins, decoding twice equal). The Errors objective is cross-checked concretely.",
+   note="Outside: hardness objectives, the seeded shuffle, larger templates; lower_bound_bins == min_bins symbolically (needs C03). Spurious abstract models are discarded (inconclusive, never a violation). One genuine defect found and repaired.",
+   design="4/C17")
 NA = {
  "C12": "quantifies over complete optimisation runs (moptipy Execution/Process, RNG streams, log files, budgets): no bounded symbolic encoding within reach; its solver-decidable ingredients are claimed under C01, C02, C04-C06, C19",
 }
